@@ -49,6 +49,12 @@ ProdSet(k) ==
                                                       b \in SO3Set("mrp", {<<1,1,0,0>>, <<-1,0,1,1>>}), c \in RnSet({<<1,0,-2>>}) }
     [] k = 4 -> { [g |-> "Prod", fs |-> <<a, b>>] : a \in SE3Set("mrp", {<<1,1,1,1>>, <<0,1,0,0>>}, {<<1,-2,0>>}),
                                                     b \in SO3Set("euler", {<<1,1,0,0>>, <<2,1,0,-1>>, <<1,0,0,2>>}) }
+    (* products whose factors are instances of the SAME class in different representations (SE3Quat / SE3Mrp):
+       anything remembered per "kind of product" instead of per product object collides between them *)
+    [] k = 5 -> { [g |-> "Prod", fs |-> <<a, b>>] : a \in SE3Set("quat", {<<1,1,0,0>>, <<-1,0,1,1>>}, {<<1,-2,0>>}), b \in RnSet(R3Small) }
+    [] k = 6 -> { [g |-> "Prod", fs |-> <<a, b>>] : a \in SE3Set("mrp",  {<<1,1,0,0>>, <<2,0,1,-1>>}, {<<1,-2,0>>}), b \in RnSet(R3Small) }
+    [] k = 7 -> { [g |-> "Prod", fs |-> <<a, b>>] : a \in SE3Set("quat", {<<1,1,0,0>>}, {<<1,-2,0>>}), b \in SE3Set("mrp", {<<2,0,1,-1>>}, {<<3,1,1>>}) }
+    [] k = 8 -> { [g |-> "Prod", fs |-> <<a, b>>] : a \in SE3Set("mrp", {<<2,0,1,-1>>}, {<<3,1,1>>}), b \in SE3Set("quat", {<<1,1,0,0>>}, {<<1,-2,0>>}) }
 
 (* families: each family is a set of mutually composable elements *)
 Thorough == Tier = "thorough"
@@ -58,9 +64,9 @@ Thorough == Tier = "thorough"
 EulerNearPole == { QMul(QMul(z, y), x) : z \in {<<2,0,0,1>>, <<1,0,0,-1>>},
                                           y \in {<<501,0,500,0>>, <<401,0,-400,0>>, <<301,0,300,0>>},
                                           x \in {<<3,1,0,0>>, <<1,-1,0,0>>} }
-NFam == 17
+NFam == 21
 Families ==
-  [ k \in 1..17 |->
+  [ k \in 1..21 |->
     CASE k = 1  -> SO3Set("quat",  IF Thorough THEN QL2 ELSE QL1)
       [] k = 2  -> SO3Set("mrp",   IF Thorough THEN QL2 ELSE QL1)
       [] k = 3  -> SO3Set("dcm",   IF Thorough THEN QL2 ELSE QL1)
@@ -77,10 +83,14 @@ Families ==
       [] k = 14 -> ProdSet(2)
       [] k = 15 -> ProdSet(3)
       [] k = 16 -> ProdSet(4)
-      [] k = 17 -> SO3Set("euler", EulerNearPole) ]
+      [] k = 17 -> SO3Set("euler", EulerNearPole)
+      [] k = 18 -> ProdSet(5)
+      [] k = 19 -> ProdSet(6)
+      [] k = 20 -> ProdSet(7)
+      [] k = 21 -> ProdSet(8) ]
 (* small sub-family used for associativity triples *)
 TriFamilies ==
-  [ k \in 1..17 |->
+  [ k \in 1..21 |->
     CASE k \in 1..4 -> { X \in Families[k] : X.q \in QTri \cup {<<0,1,0,0>>, <<-1,1,0,1>>} }
       [] k \in 5..6 -> { X \in Families[k] : X.q \in QTri /\ X.p \in TTri /\ X.pd = 2 }
       [] k \in 7..8 -> { X \in Families[k] : X.q \in {<<1,1,0,0>>, <<-1,0,1,1>>, <<2,1,0,-1>>} /\ X.p \in TTri /\ X.v \in {<<1,-2,0>>} }
@@ -113,7 +123,7 @@ V1(op, X, e)       == [op |-> op, a |-> <<X>>, exp |-> e]
 V2(op, X, Y, e)    == [op |-> op, a |-> <<X, Y>>, exp |-> e]
 V3(op, X, Y, Z, e) == [op |-> op, a |-> <<X, Y, Z>>, exp |-> e]
 
-Init == \E k \in 1..17 : \E X \in Families[k] : Valid(X) /\ tv = [op |-> "seed", a |-> <<X>>, fam |-> k]
+Init == \E k \in 1..21 : \E X \in Families[k] : Valid(X) /\ tv = [op |-> "seed", a |-> <<X>>, fam |-> k]
 
 Unary(X) ==
    \/ tv' = V1("mat", X, Mat(X))
@@ -123,8 +133,8 @@ Unary(X) ==
 (* building a direct product with `*` is a pure construction: an existing product object that is reused
    as the left operand of further `*` keeps its own factors, dimensions and matrix semantics
    (history quantifier: G = A*B;  G*R2;  G*SO3Quat;  G must still be A*B)                       *)
-ProdHist(X, k) == k \in 13..16 /\ tv' = [op |-> "prodhist", a |-> <<X>>, exp |-> Mat(X), ident |-> Mat(IdOf(X))]
-Binary(X, k) == k <= 16 /\ \E Y \in Families[k] :
+ProdHist(X, k) == k \in (13..16) \cup (18..21) /\ tv' = [op |-> "prodhist", a |-> <<X>>, exp |-> Mat(X), ident |-> Mat(IdOf(X))]
+Binary(X, k) == k # 17 /\ \E Y \in Families[k] :
    /\ Valid(Y) /\ Valid(Prod(X, Y))
    /\ tv' = V2("mul", X, Y, RMMul(Mat(X), Mat(Y)))
 Ternary(X, k) == k <= 14 /\ X \in TriFamilies[k] /\ \E Y \in TriFamilies[k], Z \in TriFamilies[k] :
